@@ -1169,7 +1169,12 @@ func (t *Tree) Compile(file string, args []string, out io.Writer) (err error) {
 			elements[0].SetParentDetect(n.ParentDetect())
 			elements[0].SetParentMultipleKey(n.ParentMultipleKey())
 			for _, element := range elements {
-				labelLast = compile(element, ko)
+				before := buffer.Len()
+				last := compile(element, ko)
+				if buffer.Len() != before {
+					/* an element that prints nothing leaves a preceding label last */
+					labelLast = last
+				}
 			}
 		case TypePeekFor:
 			ok := label
